@@ -1123,11 +1123,16 @@ func opValueStateVarJournal(ctx context.Context, pc *uint64, interpreter *EVMInt
 }
 
 func loadDataFromMem(memPtr *uint256.Int, mem *Memory) ([]byte, uint64, error) {
-	offset := int64(memPtr.Uint64())
-	dataLen := new(uint256.Int).SetBytes(mem.GetCopy(offset, 32))
-	if !memPtr.IsUint64() {
+	memLen := uint64(mem.Len())
+	offset, overflow := memPtr.Uint64WithOverflow()
+	if overflow || offset > memLen || memLen-offset < 32 {
+		return nil, 0, errors.New("mem data out of range")
+	}
+
+	dataLen, overflow := new(uint256.Int).SetBytes(mem.GetCopy(int64(offset), 32)).Uint64WithOverflow()
+	if overflow || dataLen > memLen-offset-32 {
 		return nil, 0, errors.New("mem data too long")
 	}
 
-	return mem.GetCopy(offset+32, int64(dataLen.Uint64())), dataLen.Uint64(), nil
+	return mem.GetCopy(int64(offset)+32, int64(dataLen)), dataLen, nil
 }
